@@ -36,7 +36,9 @@ CLAIMED = {
         "every control byte classified as the specification's value ranges say, masks never overlap (all 256 by kernel evaluation); generated PSEUDO_RANDOM_DATA_SEQUENCE = LFSR(0x42, 0xB8) for all 256 bytes; unstuff∘stuff = id and stuffed output has no reserved byte but ESCAPE; "
         "bytes written = prefix ++ stuffed spec bytes ++ FLAG; CRC-CCITT rejects every 1- and 2-bit error in every accepted frame up to 4095 bytes (XOR-linearity and injectivity of the shift register + kernel-checked 32766-step orbit of the generator); CRC check value 0x29B1. "
         "Tie: generated masks/reserved set/LFSR table + exhaustive differential (every byte stuffed, every byte pair unstuffed, every control byte × 5 bodies, every control-field value × payload kinds/lengths, all reset codes) and random mutated frames against to_bytes/parse_frame/_stuff_bytes/_unstuff_bytes/_write_frame/crc_hqx; "
-        "every 1-/2-bit corruption of nine short frames on the real parser.",
+        "every 1-/2-bit corruption of nine short frames on the real parser; sequences of writes through one protocol object. "
+        "Source level (DESIGN 11.7): generate_random_sequence, _stuff_bytes, _unstuff_bytes, _unwrap, append_crc, _randomize, every from_bytes/to_bytes and parse_frame are translated from the syntax tree of bellows/ash.py on every run "
+        "(BV/Gen/SrcAsh.lean) and proved equal to the models (c03_src_lfsr, c03_src_stuff, c03_src_unstuff, c03_src_to_bytes, c03_src_parse_encode, c03_src_parse, c03_src_crc_detects).",
         ref="6 C03",
         technique="Lean 4 proof (induction, kernel evaluation over all 256 control bytes, CRC algebra with decide +kernel orbit) + exhaustive differential vs real encoder/parser",
         note="binascii.crc_hqx is modelled (bit-serial CRC) and compared by the differential. ",
@@ -46,8 +48,10 @@ CLAIMED = {
         "ACK/NAK/RST cause no delivery or write; RSTACK zeroes both counters, restores the ACK timeout and reports its code once; ERROR reports its code once; for every frame sequence the deliveries and rx_seq equal those of an abstract in-order acceptor (rx_seq = accepted count since last RSTACK mod 8). "
         "Tie: generated TX_K + differential of the real AshProtocol.frame_received vs the model after every frame (events, counters, ack-future states): every sequence of length ≤ 2 (quick; ≤ 3 thorough) over a 44-letter frame alphabet from each rx_seq, random sequences with futures installed, 200-frame runs; oracle = the statements above on the implementation trace.",
         ref="6 C04",
-        technique="Lean 4 proof (case analysis + induction over frame sequences against an abstract acceptor) + exhaustive differential vs real frame_received",
-        note="Transport assumed open (a closed transport makes _write_frame raise; modelled as an explicit `raised` event). ",
+        technique="Lean 4 proof (case analysis + induction over frame sequences against an abstract acceptor; frame_received translated from the source text and proved equal to the model) + exhaustive differential vs real frame_received",
+        note="Transport assumed open (a closed transport makes _write_frame raise; modelled as an explicit `raised` event). Source level (DESIGN 11.7): frame_received, _handle_ack, data_frame_received, the five other handlers, "
+        "_enter_failed_state, _cancel_pending_data_frames and _write_frame are regenerated from the syntax tree of bellows/ash.py on every run (state monad over the object's fields, ack futures in a heap) and proved equal to the model step under the heap invariant "
+        "(c04_src_frame_received), with the accept-iff and any-sequence theorems restated over the generated definitions (c04_src_accept_iff, c04_src_sequence). ",
     ),
     "C05": dict(
         text="Model of send_data/_send_data_frame at settled loop states (semaphore of TX_K, attempt loop with FAILED gate, frmNum taken once, fresh ackNum, ack future with asyncio.timeout, NotAcked/NcpFailure/TimeoutError/success branches with the t_rx_ack updates, finally-pop, _enter_failed_state) on top of the C04 receiver model, "
@@ -74,8 +78,9 @@ CLAIMED = {
         "the released slot goes to the greatest-priority, oldest waiter (insert position proved: behind ≥, ahead of <) with the generated priority classes (999 keep-alive/counter reads, 0, −1 packet-send); sequence numbers advance by one mod 256; a decodable frame whose sequence number no call in flight owns reaches the callbacks exactly once and changes nothing else. "
         "Tie: generated priorities/constants + real EZSP + ProtocolHandler (v4/v7/v8/v14) with a scripted gateway on a virtual-time loop: all sequences of ≤ 2 (3 thorough) commands × 13 per-command behaviours, random scripts with 2–4 queued callers of mixed priority, malformed frames and cancellations, 300-command soaks; model compared at every settled state, oracle on the implementation trace.",
         ref="6 C06",
-        technique="Lean 4 proof (inductive invariant over event lists + per-event specifications) + exhaustive/random differential vs real command()/__call__ on a virtual-time loop",
-        note="zigpy's PriorityDynamicBoundedSemaphore is modelled (ordering by (-priority, arrival)); granularity is settled loop states. ",
+        technique="Lean 4 proof (inductive invariant over event lists + per-event specifications; callback-registry invariant by induction over add/remove/deliver histories) + exhaustive/random differential vs real command()/__call__ and add_callback/remove_callback/handle_callback on a virtual-time loop",
+        note="zigpy's PriorityDynamicBoundedSemaphore is modelled (ordering by (-priority, arrival)); granularity is settled loop states. Callback fan-out: model BV.Registry (id = hash + linear probing, hash an input), theorems c06_registry_add / _inv / _remove / _fanout "
+        "(no two live registrations share an id, for every history; the probe terminates; removal is exact; every live registration gets each unsolicited frame once, in order), differential through the real receive path. ",
     ),
     "C08": dict(
         text="Receive entry point modelled as the guard of EZSP.frame_received around the C07 codec model (header parse, table lookup, payload decode) and the C06 command-layer model. Theorems: classification of any byte string is total (empty / short / unknown ID / undecodable / decodes); malformed input changes no state, completes no call and invokes no callback; "
